@@ -51,8 +51,13 @@ struct buffer_head *getblk(kdev_t kdev, unsigned long long blocknr, int blocksiz
 	struct buffer_head *bh;
 	CHECK(g_getblks < 3, "no more buffers than the function needs");
 	CHECK(kdev == g_journal->j_dev && blocksize == (int)g_bs, "getblk: on the journal device, j_blocksize bytes");
-	if (IN.choice[g_getblks] & 1)		/* out of memory */
+	/* out of memory: only in the units that define JW_GETBLK_FAIL (= number of the failing call, a constant).  A getblk
+	 * that may or may not fail leaves the verifier with "pointer or NULL" values for the buffers, and every
+	 * "which buffer is this" test in the monitors then doubles the formula */
+#ifdef JW_GETBLK_FAIL
+	if (g_getblks == JW_GETBLK_FAIL)
 		return 0;
+#endif
 	/* exactly as the real getblk: the header plus fs->blocksize (== j_blocksize) data bytes, so that a write behind
 	 * the block is an out-of-bounds write.  The size is given as a plain number (JW_BS fixed per unit) so that the
 	 * verifier models the object as a byte array: the tag cursor of the real code points into b_data at a symbolic
@@ -132,16 +137,13 @@ void brelse(struct buffer_head *bh)
 {
 	CHECK(bh == g_bh0 || bh == g_bh1 || bh == g_bh2, "brelse: a buffer obtained from getblk");
 	if (bh->b_dirty) {
-		if (G.failed) {
-			/* still dirty after a failed write: the release retries it; behaviour after a reported failure
-			 * is outside the statement (the function only has to return the error) */
-			JW_BEGIN;
-			unsigned int d = JW_D();
-			bh->b_dirty = IN.err[d] ? bh->b_dirty : 0;
-			JW_END;
-		} else {
-			jw_dev_write(bh);
-		}
+		/* still dirty: only after a failed write (the release retries it; behaviour after a reported failure is outside
+		 * the statement).  The writer never leaves a block to be written by the release. */
+		JW_BEGIN;
+		unsigned int d = JW_D();
+		CHECK(g.failed, "every block is written explicitly: a buffer is dirty at its release only after a failed write");
+		bh->b_dirty = IN.err[d] ? bh->b_dirty : 0;
+		JW_END;
 	}
 	g_brelses++;
 	/* the buffer stays allocated so that the harness can still look at it; a second release is caught by the count */
